@@ -993,3 +993,229 @@ def seq_equal_rule(P, E, H):
                   "the unmatched tail of a longer input, so [1,2,3] vs [1,2] (and [] vs [1]) is reported equal"
                   % bare[0].get("s"), body=S.b)
     return r
+
+
+# ---------------------------------------------------------------------------- Behavior / Replay / Async subjects (C10)
+def _method_summary(P, E, nid, kind):
+    b = None
+    for x in P.bodies.values():
+        if x.nid == nid and x.id not in P.absorbed:
+            b = x
+    if b is None:
+        raise Undecided("method %s not found" % nid)
+    return Summary(P, E, b, item_param=2, item_kind=kind)
+
+
+def _strs(tr, keep):
+    out = []
+    for x in tr:
+        if x[0] in keep:
+            out.append(x[0] if len(x) == 1 else "%s(%s)" % (x[0], x[1]))
+    return out
+
+
+def subjects_rule(P, E, H):
+    """What Behavior / Replay / Async subjects record and hand over, decided on the summaries of their methods and of the
+    per-subscribe hand-over code, for every recorded state."""
+    r = RuleResult("SUBJ", "Behavior / Replay / Async subjects: every event is recorded and broadcast as defined, and a new subscriber is "
+                           "handed exactly the recorded state (latest value or stored terminal; the whole history, then the stored terminal)")
+    KEEP = ("remember", "push_back", "window_next", "window_error", "window_complete", "clear", "take_all", "sink_next", "sink_error",
+            "sink_complete", "subscribe", "panic", "opaque", "loop")
+    BS, RS, AS = ("subjects::behavior_subject::BehaviorSubject", "subjects::replay_subject::ReplaySubject",
+                  "subjects::async_subject::AsyncSubject")
+
+    def expect(owner, meth, want, cells_want=None):
+        try:
+            S = _method_summary(P, E, "%s::%s" % (owner, meth), {"next": "item", "error": "error", "complete": "none"}[meth])
+        except Undecided as e:
+            r.error("SUBJ: %s" % e)
+            return
+        r.instance((owner, meth), True, "%d path(s)" % len(S.paths))
+        for p_ in S.paths:
+            got = _strs(p_.trace, KEEP)
+            if got != want:
+                r.violate((owner, meth, "records/broadcasts differently"),
+                          "%s::%s does %s; its definition says %s" % (owner.split("::")[-1], meth, got, want), body=S.b)
+            for (kind, val) in (cells_want or []):
+                ok = False
+                for g, v in p_.cells.items():
+                    k = S.cellinfo.get(g)
+                    if k and k[0] == kind and v == val:
+                        ok = True
+                if not ok:
+                    r.violate((owner, meth, "state not updated"),
+                              "%s::%s does not leave its %s cell %s" % (owner.split("::")[-1], meth, kind, "set" if val == ("bconst", True) else "cleared"), body=S.b)
+
+    T, F = ("bconst", True), ("bconst", False)
+    expect(BS, "next", ["remember(item)", "window_next(item)"])
+    expect(BS, "error", ["remember(error)", "window_error"])
+    expect(BS, "complete", ["window_complete"], [("optcell", F)])
+    expect(RS, "next", ["push_back(item)", "window_next(item)"])
+    expect(RS, "error", ["remember(error)", "window_error"])
+    expect(RS, "complete", ["window_complete"], [("flag", T)])
+    expect(AS, "next", ["window_next(item)"])
+    expect(AS, "error", ["window_error"])
+    expect(AS, "complete", ["window_complete"])
+
+    # ---- BehaviorSubject hand-over: the per-subscribe closure
+    from rules_subject import source_closure_of
+    src = source_closure_of(P, BS + "::observable")
+    if src is None:
+        r.error("SUBJ: anchor missing: BehaviorSubject::observable source closure")
+    else:
+        try:
+            S = Summary(P, E, src, item_param=99, item_kind="none", sink_param=2)
+            cells = {}
+            for g, k in S.cellinfo.items():
+                if k and k[0] == "optcell" and g[1] == "param" and g[3]:      # the subject's own fields
+                    cells[S.cellsym(g)] = (g, k)
+            if len(cells) != 2:
+                raise Undecided("expected the latest-item and the stored-error cell, found %d option cells" % len(cells))
+            # which is which: the cell BehaviorSubject::new fills is the item cell
+            item_sym = [sy for sy, (g, k) in cells.items() if k[1] is True]
+            err_sym = [sy for sy, (g, k) in cells.items() if k[1] is False]
+            if len(item_sym) != 1 or len(err_sym) != 1:
+                raise Undecided("cannot tell the item cell from the error cell")
+            n = 0
+            for has_item in (False, True):
+                for has_err in (False, True):
+                    sigma = {item_sym[0]: has_item, err_sym[0]: has_err}
+                    for s_ in S.symbols():
+                        sigma.setdefault(s_, 0)
+                    outs = S.step(sigma, ALPHABET | {"sink_next", "sink_error", "sink_complete", "subscribe"})
+                    if not outs:
+                        raise Undecided("no feasible hand-over path")
+                    attach = False
+                    for (tr, nx), (p_, c_) in outs.items():
+                        n += 1
+                        got = _strs(tr, ("sink_next", "sink_error", "sink_complete", "subscribe", "panic", "opaque"))
+                        if has_err:
+                            ok = got == ["sink_error"]
+                            want = "['sink_error'] (the stored error, nothing else)"
+                        elif has_item:
+                            ok = got in (["sink_next(stored)"], ["sink_next(stored)", "subscribe(mapped)"], ["sink_next(stored)", "subscribe(other)"]) or \
+                                (len(got) == 2 and got[0] == "sink_next(stored)" and got[1].startswith("subscribe("))
+                            attach = attach or len(got) == 2
+                            want = "the latest value, then the attach to the live subject"
+                        else:
+                            ok = got == ["sink_complete"]
+                            want = "['sink_complete'] (the subject has completed)"
+                        if not ok:
+                            r.violate((BS, "hand-over", "item=%s,error=%s" % (has_item, has_err)),
+                                      "BehaviorSubject with %s%s hands a new subscriber %s; its definition says %s"
+                                      % ("a latest value" if has_item else "no value", " and a stored error" if has_err else "", got, want), body=src)
+                    if has_item and not has_err and not attach:
+                        r.violate((BS, "hand-over", "never attaches"), "a new subscriber of a live BehaviorSubject is never attached to it", body=src)
+            r.instance((BS, "hand-over"), True, "%d guarded paths over the 4 recorded states" % n)
+        except Undecided as e:
+            r.error("SUBJ: BehaviorSubject hand-over not decidable: %s" % e)
+
+    # ---- ReplaySubject hand-over: the action ready_set_go runs after the relay is subscribed
+    rsrc = source_closure_of(P, RS + "::observable")
+    act = None
+    if rsrc is not None:
+        for c in rsrc.calls:
+            if atom(c) == "ready_set_go":
+                cl = c.arg_closure(0)
+                act = P.bodies.get(cl) if cl else None
+    if act is None:
+        r.error("SUBJ: anchor missing: ReplaySubject replay action (ready_set_go)")
+    else:
+        try:
+            up = None
+            for u in act.upvars:
+                parent, provs = P.upvar_origin(act, u["idx"])
+                if parent is not None and all(t[0] == "param" and t[1] == 2 for t in provs) and parent.id == rsrc.id:
+                    up = u["idx"]
+            if up is None:
+                raise Undecided("the replay action does not capture the subscriber")
+            S = Summary(P, E, act, item_param=99, item_kind="none", sink_upvar=up)
+            optc = [S.cellsym(g) for g, k in S.cellinfo.items() if k and k[0] == "optcell" and g[1] == "param" and g[3]
+                    and norm(g[0]).startswith("subjects::replay_subject::")]
+            flg = [S.cellsym(g) for g, k in S.cellinfo.items() if k and k[0] == "flag" and g[1] == "param" and g[3]
+                   and norm(g[0]).startswith("subjects::replay_subject::")]
+            if len(optc) != 1 or len(flg) != 1:
+                raise Undecided("expected one stored-error cell and one completed flag, found %d/%d" % (len(optc), len(flg)))
+            n = 0
+            replays = False
+            for has_err in (False, True):
+                for done in (False, True):
+                    sigma = {optc[0]: has_err, flg[0]: done}
+                    for s_ in S.symbols():
+                        sigma.setdefault(s_, 1)
+                    outs = S.step(sigma, ALPHABET | {"sink_next", "sink_error", "sink_complete"})
+                    if not outs:
+                        raise Undecided("no feasible replay path")
+                    for (tr, nx), (p_, c_) in outs.items():
+                        n += 1
+                        got = _strs(tr, ("sink_next", "sink_error", "sink_complete", "panic", "opaque", "reversed"))
+                        if any(x[0] == "loop" for x in p_.trace):
+                            replays = replays or any(x.startswith("sink_next") for x in got)
+                            continue          # a replay loop cut after two rounds: the path is truncated, judged by its full siblings
+                        items = [x for x in got if x.startswith("sink_next")]
+                        rest = [x for x in got if not x.startswith("sink_next")]
+                        replays = replays or bool(items)
+                        want = ["sink_error"] if has_err else (["sink_complete"] if done else [])
+                        if rest != want or (items and got[:len(items)] != items):
+                            r.violate((RS, "hand-over", "error=%s,completed=%s" % (has_err, done)),
+                                      "ReplaySubject with %s hands a new subscriber %s; its definition says the history, then %s"
+                                      % ("a stored error" if has_err else ("a stored completion" if done else "no terminal"), got, want or "nothing"), body=act)
+            if not replays:
+                r.violate((RS, "hand-over", "history not replayed"), "the replay action never hands the recorded items to the subscriber", body=act)
+            r.instance((RS, "hand-over"), True, "%d guarded paths over the 4 recorded terminal states" % n)
+        except Undecided as e:
+            r.error("SUBJ: ReplaySubject hand-over not decidable: %s" % e)
+    return r
+
+
+# ---------------------------------------------------------------------------- identity handlers
+PASS_THROUGH = {
+    # type root -> which of its observers must forward every item unchanged (origin kind of what they observe, or None = all)
+    "operators::merge::Merge": None,
+    "operators::concat::Concat": None,
+    "operators::retry::Retry": None,
+    "operators::retry_when::RetryWhen": None,
+    "operators::on_error_resume_next::OnErrorResumeNext": None,
+    "operators::subscribe_on::SubscribeOn": None,
+    "operators::first::First": None,
+    "operators::last::Last": None,
+    "operators::flat_map::FlatMap": "call",          # the observer of an inner observable
+    "operators::timeout::Timeout": "arg",
+}
+
+
+def forward_rule(P, E, H):
+    r = RuleResult("H-next-forward", "observers whose operator is the identity on items hand every item on, unchanged, exactly once")
+    seen = set()
+    for t in H.triples:
+        root = t["root"]
+        if root not in PASS_THROUGH:
+            continue
+        want = PASS_THROUGH[root]
+        if want is not None and want not in (t.get("target") or ""):
+            continue
+        hb = t["handlers"].get("N")
+        if hb is None or hb.id in seen:
+            continue
+        seen.add(hb.id)
+        try:
+            S = Summary(P, E, hb)
+        except Undecided as e:
+            r.error("H-next-forward: %s not decidable: %s" % (root, e))
+            continue
+        key = H.key(hb)
+        r.instance(key, True, "%d path(s)" % len(S.paths))
+        for p_ in S.paths:
+            em = [x for x in p_.trace if x[0] == "sink_next"]
+            term = [x for x in p_.trace if x[0] in ("sink_complete", "sink_complete_force", "sink_error")]
+            if len(em) != 1 or em[0][1] != "item" or term:
+                r.violate(key + ("item not forwarded",),
+                          "an item handler of %s does %s on some path; the operator is the identity on items: exactly one "
+                          "sink_next of the handler's own item, no terminal" % (root.split("::")[-1], [x[0] if len(x) == 1 else "%s(%s)" % x for x in p_.trace
+                                                                                                if x[0] in ("sink_next", "sink_complete", "sink_complete_force", "sink_error")]),
+                          body=hb)
+                break
+    for root in PASS_THROUGH:
+        if not any(t["root"] == root for t in H.triples):
+            r.error("H-next-forward: anchor missing: observers of %s" % root)
+    return r
